@@ -518,6 +518,13 @@ def run_scriptplan(
                 error_output = stderr_capture.getvalue()
                 return (False, error_output or "Report generation failed")
 
+    except SystemExit as e:
+        # The engine reports fatal errors through MessageHandler.error(), which ends with sys.exit():
+        # for a programmatic caller that is a failed run, not the end of the calling process.
+        if e.code in (0, None):
+            return (True, None)
+        error_output = stderr_capture.getvalue()
+        return (False, error_output or f"ScriptPlan exited with status {e.code}")
     except Exception as e:
         error_output = stderr_capture.getvalue()
         return (False, error_output or str(e))
